@@ -270,6 +270,16 @@ def check_queries(st, hist, label=''):
             exp = 'POSKeyError' if data is None else data
             if got != exp:
                 return '%s loadSerial(%s,%s)=%r expected %r' % (label, oid.hex(), tid.hex(), got, exp)
+        # a transaction that exists but did not write the object has no revision of it
+        for tid in tids:
+            if all(tid != t for t, _ in rl):
+                try:
+                    got = st.loadSerial(oid, tid)
+                except POSException.POSKeyError:
+                    got = 'POSKeyError'
+                if got != 'POSKeyError':
+                    return '%s loadSerial(%s,%s)=%r expected POSKeyError (that transaction did not write the object)' % (
+                        label, oid.hex(), tid.hex(), got)
         if rl:
             h = st.history(oid, size=100)
             got = [d['tid'] for d in h]
